@@ -120,7 +120,8 @@ impl Cons {
     }
 }
 
-/// 0 = the owner (system Principal), 1 = p1, 2 = p2.
+/// 0 = the owner (system Principal), 1 = p1, 2 = p2, 3 = co (a second owner
+/// of the Space, listed in `space.owners`, until it is removed from them).
 pub type Who = usize;
 
 #[derive(Clone, Debug, PartialEq, Eq, PartialOrd, Ord, Serialize)]
@@ -172,7 +173,10 @@ pub struct MStmt {
 #[derive(Clone, Debug, PartialEq, Eq, PartialOrd, Ord, Serialize)]
 pub struct GovModel {
     /// status == active, per Principal
-    pub active: [bool; 3],
+    pub active: [bool; 4],
+    /// the Principals that own the Space now / did once
+    pub owners: BTreeSet<Who>,
+    pub ex_owners: BTreeSet<Who>,
     pub group: BTreeSet<Who>,
     pub grants: Vec<MGrant>,
     pub delegs: Vec<MDeleg>,
@@ -183,7 +187,9 @@ pub struct GovModel {
 impl Default for GovModel {
     fn default() -> Self {
         GovModel {
-            active: [true; 3],
+            active: [true; 4],
+            owners: BTreeSet::from([0, 3]),
+            ex_owners: BTreeSet::new(),
             group: BTreeSet::new(),
             grants: Vec::new(),
             delegs: Vec::new(),
@@ -261,6 +267,11 @@ pub struct Flags {
     pub membership: bool,
     pub action: bool,
     pub holding: bool,
+    /// an inactive Principal that owns the Space (kept apart from `inactive`:
+    /// ownership and Grants are switched off by different code)
+    pub owner_inactive: bool,
+    /// a Principal removed from the Space's owners
+    pub ex_owner: bool,
 }
 
 /// `own` applies to the requesting Principal's own records, `up` to everything
@@ -279,7 +290,7 @@ impl Relax {
 
 pub const RULES: &[&str] = &[
     "inactive", "revoked", "expiry", "strength", "deny", "scope", "ceiling", "delegable",
-    "attenuation", "membership", "action", "holding",
+    "attenuation", "membership", "action", "holding", "owner-inactive", "ex-owner",
 ];
 
 fn flag(name: &str) -> Flags {
@@ -297,6 +308,8 @@ fn flag(name: &str) -> Flags {
         "membership" => f.membership = true,
         "action" => f.action = true,
         "holding" => f.holding = true,
+        "owner-inactive" => f.owner_inactive = true,
+        "ex-owner" => f.ex_owner = true,
         _ => unreachable!(),
     }
     f
@@ -309,7 +322,7 @@ impl GovModel {
         g.sort();
         // delegations keep their order: `Parent::Deleg` indexes into it
         serde_json::json!({
-            "active": self.active, "group": self.group, "grants": g,
+            "active": self.active, "owners": self.owners, "group": self.group, "grants": g,
             "delegs": self.delegs, "policy": self.policy,
         })
         .to_string()
@@ -322,6 +335,16 @@ impl GovModel {
         self.policy.is_some()
             || self.grants.iter().any(|g| if g.to_group { self.group.contains(&who) } else { g.grantee == who })
             || self.delegs.iter().any(|d| d.to == who)
+    }
+
+    /// Alive for the purpose of holding or conferring anything.
+    fn live(&self, who: Who, f: &Flags) -> bool {
+        self.active[who] || if self.owners.contains(&who) || self.ex_owners.contains(&who) { f.owner_inactive } else { f.inactive }
+    }
+
+    /// An ACTIVE Principal listed among the Space's owners.
+    fn owns(&self, who: Who, f: &Flags) -> bool {
+        self.live(who, f) && (self.owners.contains(&who) || (f.ex_owner && self.ex_owners.contains(&who)))
     }
 
     fn stmt_matches(&self, s: &MStmt, who: Who, strength: u8, perm: &str, r: &Res, f: &Flags) -> bool {
@@ -337,7 +360,7 @@ impl GovModel {
     fn candidates(&self, who: Who, depth: usize, x: &Relax) -> Vec<Cand> {
         let mut out = Vec::new();
         let f = x.at(depth);
-        if (!self.active[who] && !f.inactive) || depth >= MAX_DEPTH {
+        if !self.live(who, f) || depth >= MAX_DEPTH {
             return out;
         }
         for g in &self.grants {
@@ -388,11 +411,11 @@ impl GovModel {
                 d.actions.iter().filter(|a| inherited.actions.contains(a)).cloned().collect()
             }
             Parent::None => {
-                if !self.active[d.from] && !f.inactive {
+                if !self.live(d.from, f) {
                     return None;
                 }
-                if d.from == 0 {
-                    d.actions.clone() // the owner can confer anything
+                if self.owns(d.from, f) {
+                    d.actions.clone() // an owner can confer anything
                 } else {
                     let held = self.candidates(d.from, depth + 1, x);
                     d.actions
@@ -467,7 +490,7 @@ impl GovModel {
 
     fn decide_at(&self, who: Who, strength: u8, perm: &str, r: &Res, depth: usize, x: &Relax) -> Dec {
         let f = x.at(depth);
-        if (!self.active[who] && !f.inactive) || depth >= MAX_DEPTH {
+        if !self.live(who, f) || depth >= MAX_DEPTH {
             return Dec::Deny;
         }
         // an unlabelled element carries the Space default, never `public`
@@ -491,7 +514,7 @@ impl GovModel {
         let mut open = false;
         // an allow that exists only if an unspecified upstream question is answered "yes"
         let mut maybe = false;
-        if who == 0 {
+        if self.owns(who, f) {
             masks.insert(false);
             open = true;
         }
